@@ -6,6 +6,22 @@ import os
 ROOT = os.path.dirname(os.path.dirname(os.path.abspath(__file__)))
 
 CHECKS = {
+    "C11": {
+        "text": "Proof (Coq, closed under the global context) on an executable Layer-A model of RestorePlan + Restorer: for "
+                "ARBITRARY storages (any manifests, any archives), ok = true at the end implies every manifest line of the target "
+                "has a file with exactly the recorded size and hash; accepted manifest / archive paths land below the restore "
+                "directory with good components only, relative / '..' / absolute-in-archive paths are rejected. Tied to the code "
+                "by writing generated groups and every single corruption of the property's list with an independent encoder, "
+                "restoring them with the real `vsb restore`, and comparing exit status and the complete restored tree (bytes, "
+                "modes, owners, mtimes) with the extracted model; path functions compared exhaustively over short strings; the "
+                "property itself is re-evaluated on every real result (incl. truncated / deleted files, storage untouched, "
+                "nothing outside the restore directory, traversal members end to end).",
+        "note": "Hash = content in the model (SHA-512 assumed collision-free on generated contents); tar/zstd fidelity and "
+                "chown/chmod/utimensat effects are observed, not proved; symlink-in-the-middle traversal is out of scope as the "
+                "property says. Four defects found here were repaired in /repo (F2, F5, F7, F9).",
+        "technique": "Coq proof over arbitrary storages (plan/exec invariants) + differential correspondence on corrupted real storages",
+        "design": "7/C11",
+    },
     "C20": {
         "text": "Proof (Coq, closed under the global context) on an acceptance model of Config::load over a typed-leaf YAML tree: "
                 "whatever document is accepted, names are distinct and non-empty, storage/upload/metrics paths normalised, limits "
@@ -136,7 +152,7 @@ def main():
             "enable": "RUSTFLAGS=\"--cfg vsb_verif\" (set by vlib/build.py for the harness and for the vsb binary the checks build)",
             "baseline_off_cmd": "cd /repo && cargo test --workspace --no-fail-fast --offline",
             "source_commits": [],
-            "fix_commits": ["8b196ab", "64fc1ae", "9b93522", "a699f7c", "3bc0c53", "02f1099", "3543234", "d28d72c"],
+            "fix_commits": ["8b196ab", "64fc1ae", "9b93522", "a699f7c", "3bc0c53", "02f1099", "3543234", "d28d72c", "f378725"],
             "add_only": True,
         },
         "engines": [{
